@@ -29,6 +29,7 @@ At the end every state ever produced (all are kept alive for `branch`) must stil
 equal the snapshot taken when it was produced.
 """
 import dataclasses as py_dataclasses
+import collections.abc
 import functools
 import json
 import os
@@ -108,7 +109,7 @@ ASSUMPTIONS = [
 ]
 
 ALGS = ['fed_avg', 'fed_prox', 'mime', 'mime_lite', 'agnostic', 'hyp_cluster',
-        'apfl']
+        'apfl', 'fed_avg_frozen']
 AGGS = ['uniform', 'uniform_arith', 'rotated', 'drive', 'terngrad']
 CLIENT_IDS = [b'c0', b'c1\x00', b'c2', b'c3', b'c4', b'c5']
 D = 2  # model input dimension
@@ -144,9 +145,12 @@ def flat(x, path='$', out=None):
     out[path] = ('dataclass', type(x).__name__, tuple(names))
     for n in names:
       flat(getattr(x, n), f'{path}.{n}', out)
-  elif isinstance(x, dict):
+  elif isinstance(x, (dict, collections.abc.Mapping)):   # (haiku FlatMap: a Mapping)
     keys = sorted(x, key=repr)
-    out[path] = ('dict', type(x).__name__, tuple(repr(k) for k in keys))
+    # (haiku's immutable FlatMap unpickles as a plain dict -- haiku's own
+    # __reduce__, nothing fedjax decides -- so the two count as one kind)
+    tname = 'dict' if type(x).__name__ in ('FlatMap', 'FlatMapping') else type(x).__name__
+    out[path] = ('dict', tname, tuple(repr(k) for k in keys))
     for k in keys:
       flat(x[k], f'{path}[{k!r}]', out)
   elif isinstance(x, (list, tuple)):
@@ -221,6 +225,20 @@ def l2_regularizer(params):
 GRAD = fedjax.grad(per_example_loss)
 
 
+# 'fed_avg_frozen': FedAvg over haiku-style params {module: {name: leaf}} given
+# as a PLAIN nested dict, with a frozen module whose entries the server
+# optimizer is told to ignore (fedjax.optimizers.ignore_grads_haiku).
+def nested_loss(params, batch, rng):
+  return per_example_loss(params['lin'], batch, rng) + 0.0 * jnp.sum(params['emb']['t'])
+
+
+def nest(p):
+  return {'lin': dict(p), 'emb': {'t': p['w'] * 2}}
+
+
+NESTED_GRAD = fedjax.grad(nested_loss)
+
+
 def optimizer(name):
   if name == 'sgd':
     return fedjax.optimizers.sgd(0.125)
@@ -263,6 +281,11 @@ def build_algorithm(alg, v):
   copt, sopt = optimizer(OPTS[v][0]), optimizer(OPTS[v][1])
   if alg == 'fed_avg':
     return fed_avg.federated_averaging(GRAD, copt, sopt, train_hparams(v))
+  if alg == 'fed_avg_frozen':
+    return fed_avg.federated_averaging(
+        NESTED_GRAD, copt,
+        fedjax.optimizers.ignore_grads_haiku(sopt, [('emb', 't'), ('lin', 'b')][:1 + v % 2]),
+        train_hparams(v))
   if alg == 'fed_prox':
     return fed_prox.fed_prox(per_example_loss, copt, sopt, train_hparams(v),
                              proximal_weight=[0.5, 0.0, 1.0][v])
@@ -353,13 +376,15 @@ class AlgorithmSystem:
       if self.alg == 'hyp_cluster':
         warm = self.other.init([init_params(p) for p in shifted])
       else:
-        warm = self.other.init(init_params(shifted[0]))
+        warm = self.other.init(nest(init_params(shifted[0])) if self.alg == 'fed_avg_frozen'
+                               else init_params(shifted[0]))
       self.other.apply(warm, self.make_args(['apply', [0, 1, 2], [11, 12, 13]]))
 
   def init(self):
     if self.alg == 'hyp_cluster':
       return self.algorithm.init([init_params(p, self.host) for p in self.init_list])
-    state = self.algorithm.init(init_params(self.init_list[0], self.host))
+    p0 = init_params(self.init_list[0], self.host)
+    state = self.algorithm.init(nest(p0) if self.alg == 'fed_avg_frozen' else p0)
     if self.alg == 'agnostic' and self.short_window:
       # a state carried over from a run with a shorter domain window (the
       # window is a plain list inside the public ServerState dataclass)
@@ -433,7 +458,12 @@ class AggregatorSystem:
                                        case['seed'])
     self.trees = [make_tree(case['tree'], c['values'], case.get('dtype', 'f32'))
                   for c in case['pool']]
-    self.weights = [float(c['weight']) for c in case['pool']]
+    # weights as Python floats or, per case, as the caller's own 0-d NumPy
+    # arrays (np.asarray(num_examples, np.float32)): arguments like any other
+    wk = case.get('weight_kind', 'float')
+    self.weights = [float(c['weight']) if wk == 'float' else
+                    np.asarray(c['weight'], np.float32 if wk == 'np0d' else np.float64)
+                    for c in case['pool']]
     self.other = None
     if case.get('other_instance'):
       self.other = build_aggregator(case['system'], case['levels'], case['seed'])
@@ -717,6 +747,8 @@ def labels(case):
     ls.append('host_numpy_params:' + case['host_params'])
   if case.get('short_window'):
     ls.append('agnostic_state_with_shorter_window')
+  if case.get('weight_kind', 'float') != 'float':
+    ls.append('weights_are_numpy_0d_arrays')
   if any(op[0] == 'apply' and len(set(op[1])) < len(op[1]) for op in case['ops']):
     ls.append('client_twice_in_one_round')
   if case['system'] in ALGS:
@@ -876,6 +908,7 @@ def aggregator_strategy(draw, tier):
           'ops': ops}
   if draw(st.integers(0, 3)) == 0:
     case['dtype'] = 'bf16'
+  case['weight_kind'] = draw(st.sampled_from(['float', 'float', 'np0d', 'np0d_f64']))
   case.update(draw(other_instance_fields(ops)))
   return case
 
@@ -990,11 +1023,11 @@ def cross_process_strategy(draw, tier):
   return case
 
 
-QUICK = {'fed_avg': 128, 'fed_prox': 128, 'mime': 128, 'mime_lite': 128,
+QUICK = {'fed_avg_frozen': 64, 'fed_avg': 128, 'fed_prox': 128, 'mime': 128, 'mime_lite': 128,
          'agnostic': 128, 'hyp_cluster': 128, 'apfl': 144}
 # relative shares of the per-shard soft time cap, proportional to measured cost
 # (fed_avg runs first and also pays for the first-use warm-up of jax)
-SHARE = {'fed_avg': 1.5, 'fed_prox': 1.0, 'mime': 1.5, 'mime_lite': 1.5,
+SHARE = {'fed_avg_frozen': 0.8, 'fed_avg': 1.5, 'fed_prox': 1.0, 'mime': 1.5, 'mime_lite': 1.5,
          'agnostic': 2.0, 'hyp_cluster': 2.5, 'apfl': 3.0}
 DOC = ('generated histories of apply / branch / roundtrip for %s: duplicate '
        'call bit-equal, argument state and client keys unchanged and readable, '
